@@ -421,10 +421,39 @@ class OdeModel:
     def is_n_spec(self, v) -> bool:
         return simp(v) == self.N_SPEC
 
-    def is_n_eqns(self, v) -> bool:
+    def _list_len(self, v):
+        """(number of species-many parts, constant part, thermal flag added?) for a list value whose length is a*n_spec + b
+        [+ has_thermal], else None: a comprehension over the species list, a display, `L ++ [x]`, `A + B`, and the two arms of
+        `if has_thermal: L.append(x)`"""
+        v = simp(v)
+        if v[0] == "comp" and v[1] == "list" and len(v[3]) == 1 and not v[3][0][2] and simp(v[3][0][1]) == self.SPEC:
+            return (1, 0, False)
+        if v[0] == "list" and not any(e[0] == "star" for e in v[1]):
+            return (0, len(v[1]), False)
+        if v[0] == "appended":
+            a = self._list_len(v[1])
+            return (a[0], a[1] + 1, a[2]) if a else None
+        if v[0] == "binop" and v[1] == "Add":
+            a, b = self._list_len(v[2]), self._list_len(v[3])
+            return (a[0] + b[0], a[1] + b[1], False) if a and b and not a[2] and not b[2] else None
+        if v[0] in ("phi", "ifexp") and self.is_has_thermal(v[1]):
+            a, b = self._list_len(v[2]), self._list_len(v[3])
+            if a and b and not a[2] and not b[2] and a[0] == b[0] and a[1] == b[1] + 1:
+                return (b[0], b[1], True)
+        return None
+
+    def is_n_eqns(self, v, guards=()) -> bool:
+        """`guards`: the conditions in force where v is evaluated -- under `if has_thermal` the number of equations is n_spec + 1"""
         v = simp(v)
         if v == ("call", ("global", "len"), (("acc", self.RHSNAME),), ()):
             return True         # rhs is created as ['0.0'] * n_eqns (C01.R1) and only its entries are re-assigned
+        if v[0] == "call" and v[1] == ("global", "len") and len(v[2]) == 1 and not v[3] and self._list_len(v[2][0]) == (1, 0, True):
+            # the length of the list of abundance symbols, one per species plus the temperature when there is a thermal equation:
+            # n_spec + has_thermal, which is n_eqns wherever a species exists (the sites that index a species' row)
+            return True
+        if guards and v[0] == "binop" and v[1] == "Add" and any(p and self.is_has_thermal(g) for g, p in guards) and \
+                ((self.is_n_spec(v[2]) and v[3] == ("const", 1)) or (self.is_n_spec(v[3]) and v[2] == ("const", 1))):
+            return True
         if v[0] == "call" and v[1] == ("global", "len") and len(v[2]) == 1 and not v[3] and v[2][0][0] == "binop" and v[2][0][1] == "Mult":
             # len([c] * n) is n (n_eqns >= 1): the length of the RHS table read where the table is a helper's parameter
             a, b = v[2][0][2], v[2][0][3]
@@ -442,7 +471,7 @@ class OdeModel:
                 return (self.is_n_spec(l) and self.is_has_thermal(r)) or (self.is_n_spec(r) and self.is_has_thermal(l))
         return False
 
-    def decode_flat(self, idx):
+    def decode_flat(self, idx, guards=()):
         """row*n_eqns + col  ->  (row, col) or None."""
         idx = simp(idx)
         if idx[0] != "binop" or idx[1] != "Add":
@@ -450,7 +479,7 @@ class OdeModel:
         for a, b in ((idx[2], idx[3]), (idx[3], idx[2])):
             if a[0] == "binop" and a[1] == "Mult":
                 for r, n in ((a[2], a[3]), (a[3], a[2])):
-                    if self.is_n_eqns(n):
+                    if self.is_n_eqns(n, guards):
                         return r, b
         # a longer sum (`rowstart + col + 1`, `col + n * row`): the one term carrying the factor n_eqns is the row part, the rest the column
         terms = []
@@ -461,7 +490,7 @@ class OdeModel:
             else:
                 terms.append(x)
         flat(idx)
-        rows = [(i, r) for i, t in enumerate(terms) if t[0] == "binop" and t[1] == "Mult" for r, n in ((t[2], t[3]), (t[3], t[2])) if self.is_n_eqns(n)]
+        rows = [(i, r) for i, t in enumerate(terms) if t[0] == "binop" and t[1] == "Mult" for r, n in ((t[2], t[3]), (t[3], t[2])) if self.is_n_eqns(n, guards)]
         if len(rows) == 1 and len(terms) >= 2:
             i, r = rows[0]
             rest = [t for j, t in enumerate(terms) if j != i]
@@ -531,7 +560,7 @@ class OdeModel:
         if role == "rhs":
             row, col = idx, None
         else:
-            d = self.decode_flat(idx)
+            d = self.decode_flat(idx, tuple((simp(g), p) for g, p in f.guards))
             if d is None:
                 # wrong only when it is arithmetic over understood positions that does not have the row-major form (`col*n + row` is
                 # decoded and caught by the row / column rules); a slice, a tuple key, an index computed elsewhere is not understood
